@@ -301,6 +301,8 @@ def answer(circ, q):
             return "v:assertion"
         except RuntimeError:
             return "v:runtime"
+        except Exception as e:  # noqa: BLE001 — any other class is an answer too (compared with the model / the oracle), not a harness crash
+            return "v:!" + err_name(e)
     if f[0] == "h":
         out = []
         for t, i in all_regs(circ):
@@ -311,10 +313,10 @@ def answer(circ, q):
         return "x:" + exc_str(lambda: circ.find_incompatible_edges(e), lambda s: emp(".".join(sorted(edge_str(x) for x in s))))
     if f[0] == "l":
         labs = [] if f[1] == "*" else f[1].split(".")
-        return "l:" + emp(".".join(sorted(node_str(x) for x in circ.get_node_by_labels(labs))))
+        return "l:" + exc_str(lambda: circ.get_node_by_labels(labs), lambda l: emp(".".join(sorted(node_str(x) for x in l))))
     if f[0] == "e":
         labs = [] if f[1] == "*" else f[1].split(".")
-        return "e:" + emp(".".join(sorted(node_str(x) for x in circ.get_node_exclude_labels(labs))))
+        return "e:" + exc_str(lambda: circ.get_node_exclude_labels(labs), lambda l: emp(".".join(sorted(node_str(x) for x in l))))
     if f[0] == "m":
         return "m:" + metrics_str(circ)
     if f[0] == "n":
